@@ -4,7 +4,7 @@ from __future__ import annotations
 from fractions import Fraction
 
 from .rat import Rat
-from .symx import PList, RLE, RLECat, NArr, _segs, Unsupported, canon, Path, Opaque
+from .symx import PList, RLE, RLECat, NArr, NMask, _segs, Unsupported, canon, Path, Opaque
 
 
 def np_hook(interp, d, args, kwargs, node):
@@ -61,6 +61,20 @@ def np_hook(interp, d, args, kwargs, node):
             return NArr(sa + sb)
         if sa is not None and isinstance(args[1], Rat):
             return RLECat(sa + [(args[1], ("unknown-length",))])
+    if d in ("np.minimum", "np.maximum") and len(args) == 2 and any(isinstance(x, NArr) for x in args):
+        import ast as _ast
+        m = interp.compare(_ast.LtE(), args[0], args[1], node)
+        a, b = args if d == "np.minimum" else (args[1], args[0])
+
+        def seg(x, i):
+            return x.segs[i][0] if isinstance(x, NArr) else x
+
+        return NArr([((seg(a, i) if t else seg(b, i)), n) for i, (t, n) in enumerate(m.segs)])
+    if d == "np.where" and len(args) == 3 and isinstance(args[0], NMask):
+        def seg(x, i):
+            return x.segs[i][0] if isinstance(x, NArr) else x
+
+        return NArr([((seg(args[1], i) if t else seg(args[2], i)), n) for i, (t, n) in enumerate(args[0].segs)])
     if d == "np.multiply" and len(args) == 2 and all(isinstance(x, (Rat, Path)) for x in args):
         return interp.to_rat(args[0]) * interp.to_rat(args[1])
     if d == "np.zeros_like" and len(args) == 1:
